@@ -162,11 +162,13 @@ Definition c09_run (k : kind) (n : Z) (fs : list fault) (ops : list op) : bool :
 End Run.
 
 (* hypotheses of C09_log_wellformed on the history: clock readings are int64
-   values, metadata documents are representable and readable *)
+   values, metadata documents are representable (which includes: no binary
+   subtype in 0x06..0x7f, so [doc_bin_ok] holds — Proofs/FrameValidate.doc_ok_bin_ok;
+   for added documents that is part of [ops_ok]) *)
 Definition op_frame_ok (o : op) : Prop :=
   match o with
-  | OAdd d now => in_i64 now = true /\ doc_bin_ok d = true
-  | OSetMeta (Some m) => doc_ok m = true /\ doc_bin_ok m = true
+  | OAdd d now => in_i64 now = true
+  | OSetMeta (Some m) => doc_ok m = true
   | _ => True
   end.
 
